@@ -75,9 +75,9 @@ func (env *Env) locEntries(e *Expr) []modEntry {
 			}
 			et := sl.GT.Underlying().(*types.Slice).Elem()
 			key, _ := w.elemKey(et)
-			content := sel(env.heap(key), app("sarr", sl.T))
+			content := sel(env.heap(key), sarrOf(sl.T))
 			return refSet{typ: et, pred: func(o Term) Term {
-				return "(exists ((k!m Int)) (and (<= 0 k!m) (< k!m " + app("slen_", sl.T) + ") (= " + o + " " + sel(content, app("+", app("soff", sl.T), "k!m")) + ")))"
+				return "(exists ((k!m Int)) (and (<= 0 k!m) (< k!m " + slenOf(sl.T) + ") (= " + o + " " + sel(content, sidx(soffOf(sl.T), "k!m")) + ")))"
 			}}
 		}
 		v := env.eval(x)
@@ -106,7 +106,7 @@ func (env *Env) locEntries(e *Expr) []modEntry {
 			if v.S == SSlice {
 				et := v.GT.Underlying().(*types.Slice).Elem()
 				key, _ := w.elemKey(et)
-				return []modEntry{mk(key, singleRef(app("sarr", v.T), nil))}
+				return []modEntry{mk(key, singleRef(sarrOf(v.T), nil))}
 			}
 			if v.GT != nil {
 				if p, ok := v.GT.Underlying().(*types.Pointer); ok {
@@ -524,7 +524,7 @@ func (fc *FnCtx) applyContract(ci *calleeInfo, args []Val, writes map[string]boo
 		}
 	}
 	pre := fc.st.clone()
-	envPre := &Env{w: fc.w, pkg: ci.pkg, vars: map[string]EV{}, st: pre, alloc0: fc.alloc0}
+	envPre := &Env{w: fc.w, pkg: ci.pkg, vars: map[string]EV{}, st: pre, alloc0: fc.alloc0, facts: &fc.facts}
 	if envPre.pkg == nil {
 		envPre.pkg = fc.pkg
 	}
@@ -609,15 +609,40 @@ func (fc *FnCtx) applyContract(ci *calleeInfo, args []Val, writes map[string]boo
 	for _, k := range sortedKeys(writes) {
 		srt := fc.w.heapSorts[k]
 		old := fc.st.Heap(k)
-		nw := fc.fresh(sanitize(k), srt)
 		if !strings.HasPrefix(srt, "(Array") {
 			// scalar (package variable, $cost): unchanged unless listed
-			if len(mods[k]) == 0 {
-				fc.assumeRaw(eq(nw, old))
+			if len(mods[k]) > 0 {
+				fc.setHeap(k, fc.fresh(sanitize(k), srt))
 			}
-			fc.setHeap(k, nw)
 			continue
 		}
+		// Objects the callee allocates are handled by prophecy (the array is left as it is at fresh refs; the callee's
+		// postcondition constrains those cells). Declared single-object entries become point updates; only region
+		// entries need a quantified frame axiom.
+		allSingle := true
+		for _, me := range mods[k] {
+			if me.single == "" {
+				allSingle = false
+			}
+		}
+		if allSingle {
+			t := old
+			inner := srt[len("(Array Int ") : len(srt)-1]
+			seen := map[string]bool{}
+			for _, me := range mods[k] {
+				if seen[me.single] {
+					continue
+				}
+				seen[me.single] = true
+				v := fc.fresh(sanitize(k)+"_v", inner)
+				t = store(t, me.single, v)
+			}
+			if t != old {
+				fc.setHeap(k, t)
+			}
+			continue
+		}
+		nw := fc.fresh(sanitize(k), srt)
 		var inMods []Term
 		for _, me := range mods[k] {
 			inMods = append(inMods, me.pred("o!h"))
@@ -628,12 +653,25 @@ func (fc *FnCtx) applyContract(ci *calleeInfo, args []Val, writes map[string]boo
 	}
 	// results
 	var res Val
-	envPost := &Env{w: fc.w, pkg: envPre.pkg, vars: map[string]EV{}, st: fc.st, old: envPre, alloc0: allocPre}
+	envPost := &Env{w: fc.w, pkg: envPre.pkg, vars: map[string]EV{}, st: fc.st, old: envPre, alloc0: allocPre, facts: &fc.facts}
 	for k, v := range envPre.vars {
 		envPost.vars[k] = v
 	}
 	results := ci.sig.Results()
 	bindRes := func(i int, t types.Type, v Val) {
+		if sv, isStruct := v.(StructVal); isStruct {
+			r := fc.newRef()
+			fc.structToHeap(r, t, sv)
+			ev := EV{r, SStruct, t}
+			if n := results.At(i).Name(); n != "" && n != "_" {
+				envPost.vars[n] = ev
+			}
+			envPost.vars[fmt.Sprintf("result%d", i)] = ev
+			if results.Len() == 1 {
+				envPost.vars["result"] = ev
+			}
+			return
+		}
 		tv, ok := v.(string)
 		if !ok {
 			return
@@ -703,7 +741,7 @@ func (fc *FnCtx) builtin(x *ssa.Call, b *ssa.Builtin) Val {
 		case *types.Basic:
 			return app("slen", fc.term(args[0]))
 		case *types.Slice:
-			return app("slen_", fc.term(args[0]))
+			return slenOf(fc.term(args[0]))
 		case *types.Array:
 			return strconv.FormatInt(u.Len(), 10)
 		case *types.Pointer:
@@ -714,7 +752,7 @@ func (fc *FnCtx) builtin(x *ssa.Call, b *ssa.Builtin) Val {
 		unsupported("len of %s", t)
 	case "cap":
 		if _, ok := args[0].Type().Underlying().(*types.Slice); ok {
-			return app("scap", fc.term(args[0]))
+			return scapOf(fc.term(args[0]))
 		}
 		unsupported("cap of %s", args[0].Type())
 	case "append":
@@ -736,31 +774,33 @@ func (fc *FnCtx) doAppend(x *ssa.Call) Val {
 	}
 	t := fc.term(args[1])
 	E := fc.define("apE0", arrSort(arrSort(es)), fc.st.Heap(key))
-	ln := fc.define("aplen", SInt, app("slen_", s))
-	n := fc.define("apn", SInt, app("slen_", t))
-	arr := app("sarr", s)
-	off := app("soff", s)
-	inplace := fc.define("inplace", SBool, and(app("<=", app("+", ln, n), app("scap", s)), not(eq(arr, "0"))))
+	ln := fc.define("aplen", SInt, slenOf(s))
+	n := slenOf(t)
+	arr := fc.define("aparr", SInt, sarrOf(s))
+	off := fc.define("apoff", SInt, soffOf(s))
+	toff := soffOf(t)
+	inplace := fc.define("inplace", SBool, and(app("<=", plus(ln, n), scapOf(s)), not(eq(arr, "0"))))
 	// frame: in-place growth writes the existing backing array
 	saveReach := fc.reach
 	fc.reach = and(fc.reach, inplace)
 	fc.frameCheck(key, arr, "append in place")
 	fc.reach = saveReach
 	r := fc.newRef()
+	oldc := fc.define("apold", arrSort(es), sel(E, arr))
+	tc := fc.define("aptc", arrSort(es), sel(E, sarrOf(t)))
+	// copy case: a new array holding the old elements followed by the appended ones (absolute indices, offset 0)
 	newc := fc.fresh("apc", arrSort(es))
-	oldc := sel(E, arr)
-	tc := sel(E, app("sarr", t))
-	// new content (copy case): prefix from old, then the appended elements
-	fc.assumeRaw("(forall ((k!a Int)) (! (=> (and (<= 0 k!a) (< k!a " + ln + ")) (= (select " + newc + " k!a) (select " + oldc + " (+ " + off + " k!a)))) :pattern ((select " + newc + " k!a))))")
-	fc.assumeRaw("(forall ((k!a Int)) (! (=> (and (<= 0 k!a) (< k!a " + n + ")) (= (select " + newc + " (+ " + ln + " k!a)) (select " + tc + " (+ " + app("soff", t) + " k!a)))) :pattern ((select " + newc + " (+ " + ln + " k!a)))))")
-	// in-place content
+	fc.assumeRaw("(forall ((j!a Int)) (! (and (=> (and (<= 0 j!a) (< j!a " + ln + ")) (= (select " + newc + " j!a) (select " + oldc + " " + sidx(off, "j!a") + ")))" +
+		" (=> (and (<= " + ln + " j!a) (< j!a (+ " + ln + " " + n + "))) (= (select " + newc + " j!a) (select " + tc + " " + sidx(toff, "(- j!a "+ln+")") + ")))) :pattern ((select " + newc + " j!a))))")
+	// in-place case: the old array with the cells [off+len, off+len+n) overwritten
 	inc := fc.fresh("apc", arrSort(es))
-	fc.assumeRaw("(forall ((k!a Int)) (! (= (select " + inc + " k!a) (ite (and (<= (+ " + off + " " + ln + ") k!a) (< k!a (+ " + off + " " + ln + " " + n + "))) (select " + tc + " (+ " + app("soff", t) + " (- k!a (+ " + off + " " + ln + ")))) (select " + oldc + " k!a))) :pattern ((select " + inc + " k!a))))")
+	base := fc.define("apbase", SInt, app("+", off, ln))
+	fc.assumeRaw("(forall ((j!a Int)) (! (= (select " + inc + " j!a) (ite (and (<= " + base + " j!a) (< j!a (+ " + base + " " + n + "))) (select " + tc + " " + sidx(toff, "(- j!a "+base+")") + ") (select " + oldc + " j!a))) :pattern ((select " + inc + " j!a))))")
 	newcap := fc.fresh("apcap", SInt)
-	fc.assumeRaw(and(app("<=", app("+", ln, n), newcap), app("<=", newcap, "281474976710656")))
+	fc.assumeRaw(and(app("<=", plus(ln, n), newcap), app("<=", newcap, "281474976710656")))
 	fc.setHeap(key, fc.define("apE", arrSort(arrSort(es)), ite(inplace, store(E, arr, inc), store(E, r, newc))))
 	res := fc.fresh("apres", SSlice)
-	fc.assumeRaw(eq(res, app("mkslice", ite(inplace, arr, r), ite(inplace, off, "0"), app("+", ln, n), ite(inplace, app("scap", s), newcap))))
+	fc.assumeRaw(eq(res, app("mkslice", ite(inplace, arr, r), ite(inplace, off, "0"), plus(ln, n), ite(inplace, scapOf(s), newcap))))
 	return res
 }
 
@@ -778,19 +818,19 @@ func (fc *FnCtx) doCopy(x *ssa.Call) Val {
 		srcAt = func(k Term) Term { return app("sat", s, k) }
 	} else {
 		s := fc.term(args[1])
-		sn = app("slen_", s)
-		sc := sel(E, app("sarr", s))
-		srcAt = func(k Term) Term { return sel(sc, app("+", app("soff", s), k)) }
+		sn = slenOf(s)
+		sc := sel(E, sarrOf(s))
+		srcAt = func(k Term) Term { return sel(sc, sidx(soffOf(s), k)) }
 	}
-	n := fc.define("cpn", SInt, app("imin", app("slen_", d), sn))
+	n := fc.define("cpn", SInt, app("imin", slenOf(d), sn))
 	saveReach := fc.reach
 	fc.reach = and(fc.reach, app(">", n, "0"))
-	fc.frameCheck(key, app("sarr", d), "copy")
+	fc.frameCheck(key, sarrOf(d), "copy")
 	fc.reach = saveReach
 	nc := fc.fresh("cpc", arrSort(es))
-	doff := app("soff", d)
-	oldc := sel(E, app("sarr", d))
+	doff := soffOf(d)
+	oldc := sel(E, sarrOf(d))
 	fc.assumeRaw("(forall ((k!c Int)) (! (= (select " + nc + " k!c) (ite (and (<= " + doff + " k!c) (< k!c (+ " + doff + " " + n + "))) " + srcAt(app("-", "k!c", doff)) + " (select " + oldc + " k!c))) :pattern ((select " + nc + " k!c))))")
-	fc.setHeap(key, store(E, app("sarr", d), nc))
+	fc.setHeap(key, store(E, sarrOf(d), nc))
 	return n
 }
